@@ -12,6 +12,7 @@ from cassis.cas import Cas, IdGenerator, Sofa, View
 from cassis.typesystem import (
     _LIST_TYPES,
     _PRIMITIVE_ARRAY_TYPES,
+    _PRIMITIVE_TYPES,
     FEATURE_BASE_NAME_BEGIN,
     FEATURE_BASE_NAME_END,
     FEATURE_BASE_NAME_HEAD,
@@ -463,6 +464,10 @@ class CasXmiDeserializer:
             raise ValueError(f"Not a primitive collection type: {type_name}")
 
     def _parse_primitive_value(self, type_: Type, value: str) -> Union[float, int, bool, str, None]:
+        # The range may be a user-defined subtype of a primitive type, e.g. of uima.cas.String
+        while type_.name not in _PRIMITIVE_TYPES and type_.supertype is not None:
+            type_ = type_.supertype
+
         type_name = type_.name
         if value is None:
             return None
